@@ -493,7 +493,7 @@ class GridderScatter(Contract):
         if names != want:
             return out
         cd = dict(cols)
-        w, e, s, n = a.region if a.region is not None else est.region_
+        w, e, s, n = a.region if a.region is not None else (est.region if type(est).__name__ == "CheckerBoard" else est.region_)
         size = a.size
         out["size_rows"] = and_(*[c.shape[0] == size for _, c in cols])
         out["points_lie_in_the_region"] = Forall((size,), lambda i: and_(w <= cd[dims[1]].at(i), cd[dims[1]].at(i) <= e, s <= cd[dims[0]].at(i), cd[dims[0]].at(i) <= n))
